@@ -325,12 +325,14 @@ def lz_trailing_rule_case(f, api, flags, kind, pos, res):
     acc = 0
     for j in range(1, len(units)):
         acc += units[j - 1][2]
-        if res["outlen"] != acc or acc >= len(f["plain"]):
+        if res["outlen"] != acc:
             continue
         s_next = units[j][0]
         s_last = units[j - 1][0]
-        if kind == "f" and (s_next <= pos // 8 < s_next + 4 or pos // 8 == s_last + 4):
+        # (a flip that loses nothing because the later members are empty is "accepted-same-data", decided before this)
+        if kind == "f" and acc < len(f["plain"]) and (s_next <= pos // 8 < s_next + 4 or pos // 8 == s_last + 4):
             return True
+        # a cut inside the magic of a later member is reported as complete even when that member holds no data
         if kind == "t" and s_next < pos < s_next + 4:
             return True
     return False
@@ -463,9 +465,9 @@ def run(ctx):
         n_edits = 40
     else:
         seeds_x = seeds
-        small = generated_files(ctx, 70, 12)
-        legacy = generated_legacy(ctx, 10)
-        n_edits = 400
+        small = generated_files(ctx, 50, 10)
+        legacy = generated_legacy(ctx, 8)
+        n_edits = 300
     files = seeds_x + small + legacy
     ctx.log("files: %d (%d seeds, %d generated .xz, %d .lzma/.lz) in %.1fs" % (len(files), len(seeds_x), len(small), len(legacy), time.time() - t0))
     tasks = []
